@@ -422,3 +422,5 @@ def run(ctx):
     _run_core(ctx)
     from . import refs_misc
     refs_misc.run_for(ctx, 'C05')
+    from . import reflib
+    reflib.run_for(ctx, 'C05')
